@@ -81,3 +81,310 @@ theorem core_np_generic (sem : Sem) (b : Builtin) (args : List Value) (hl : args
     simp only [callBuiltinCore, getArgB, List.getElem?_cons_zero, List.getElem?_cons_succ] <;> np
 
 end AikenVerif
+
+namespace AikenVerif
+open Gen
+
+theorem dataItems_np (l : List Const) (h : Const.wtList .data l = true) : NP (dataItems l) := by
+  induction l with
+  | nil => exact NP_ok _
+  | cons c cs ih =>
+    simp only [Const.wtList, Bool.and_eq_true, beq_iff_eq] at h
+    obtain ⟨⟨hty, _⟩, hcs⟩ := h
+    cases c <;> simp only [Const.ty] at hty <;> try cases hty
+    simp only [dataItems]
+    refine NP_bind (ih hcs) ?_
+    intro _ _
+    exact NP_pure _
+
+theorem pairItems_np (l : List Const) (h : Const.wtList (.pair .data .data) l = true) : NP (pairItems l) := by
+  induction l with
+  | nil => exact NP_ok _
+  | cons c cs ih =>
+    simp only [Const.wtList, Bool.and_eq_true, beq_iff_eq] at h
+    obtain ⟨⟨hty, hwt⟩, hcs⟩ := h
+    cases c <;> simp only [Const.ty] at hty <;> try cases hty
+    rename_i x y
+    simp only [Const.wt, Bool.and_eq_true, beq_iff_eq] at hwt
+    obtain ⟨⟨⟨hx, hy⟩, _⟩, _⟩ := hwt
+    cases x <;> simp only [Const.ty] at hx <;> try cases hx
+    cases y <;> simp only [Const.ty] at hy <;> try cases hy
+    simp only [pairItems]
+    refine NP_bind (ih hcs) ?_
+    intro _ _
+    exact NP_pure _
+
+theorem writeBitsLoop_np (set : Bool) (l : List Const) (h : Const.wtList .integer l = true) :
+    ∀ bytes, NP (writeBitsLoop set l bytes) := by
+  induction l with
+  | nil => intro bytes; exact NP_ok _
+  | cons c cs ih =>
+    intro bytes
+    simp only [Const.wtList, Bool.and_eq_true, beq_iff_eq] at h
+    obtain ⟨⟨hty, _⟩, hcs⟩ := h
+    cases c <;> simp only [Const.ty] at hty <;> try cases hty
+    simp only [writeBitsLoop]
+    split
+    · exact NP_err
+    · exact ih hcs _
+
+theorem wt_of_unwrapDataList {v : Value} {l : List Const} (hv : v.wt = true) (h : v.unwrapDataList = .ok l) :
+    Const.wtList .data l = true := by
+  unfold Value.unwrapDataList at h
+  split at h
+  · cases h; simpa [Value.wt, Const.wt] using hv
+  · cases h
+
+theorem wt_of_unwrapIntList {v : Value} {l : List Const} (hv : v.wt = true) (h : v.unwrapIntList = .ok l) :
+    Const.wtList .integer l = true := by
+  unfold Value.unwrapIntList at h
+  split at h
+  · cases h; simpa [Value.wt, Const.wt] using hv
+  · cases h
+
+theorem wt_of_unwrapList {v : Value} {t : Ty} {l : List Const} (hv : v.wt = true) (h : v.unwrapList = .ok (t, l)) :
+    Const.wtList t l = true := by
+  unfold Value.unwrapList at h
+  split at h
+  · cases h; simpa [Value.wt, Const.wt] using hv
+  · cases h
+
+end AikenVerif
+
+namespace AikenVerif
+open Gen
+
+macro "np_step'" : tactic => `(tactic| first
+  | exact NP_ok _ | exact NP_pure _ | exact NP_err | exact NP_unm
+  | exact unwrapInteger_np _ | exact unwrapByteString_np _ | exact unwrapString_np _
+  | exact unwrapBool_np _ | exact unwrapUnit_np _ | exact unwrapPair_np _ | exact unwrapList_np _
+  | exact unwrapData_np _ | exact unwrapDataList_np _ | exact unwrapIntList_np _ | exact unwrapConstant_np _
+  | exact dataItems_np _ (wt_of_unwrapDataList (by assumption) (by assumption))
+  | exact pairItems_np _ (by first | exact wt_of_unwrapList (by assumption) (by assumption) | (have := wt_of_unwrapList (by assumption) (by assumption); simp_all))
+  | exact writeBitsLoop_np _ _ (wt_of_unwrapIntList (by assumption) (by assumption)) _
+  | (refine NP_bind ?_ ?_)
+  | (intro _ h; first | cases h | skip)
+  | split)
+
+theorem len_eq_six {α} {l : List α} (h : l.length = 6) : ∃ a b c d e f, l = [a, b, c, d, e, f] := by
+  match l, h with
+  | [a, b, c, d, e, f], _ => exact ⟨a, b, c, d, e, f, rfl⟩
+
+theorem chooseData_np (sem : Sem) (args : List Value) (hl : args.length = 6) :
+    NP (callBuiltinCore sem .chooseData args) := by
+  obtain ⟨a, b, c, d, e, f, rfl⟩ := len_eq_six hl
+  simp only [callBuiltinCore, getArgB, List.getElem?_cons_zero, List.getElem?_cons_succ]
+  repeat np_step'
+
+theorem constrData_np (sem : Sem) (x y : Value) (hy : y.wt = true) :
+    NP (callBuiltinCore sem .constrData [x, y]) := by
+  simp only [callBuiltinCore, getArgB, List.getElem?_cons_zero, List.getElem?_cons_succ]
+  repeat np_step'
+
+theorem listData_np (sem : Sem) (x : Value) (hx : x.wt = true) :
+    NP (callBuiltinCore sem .listData [x]) := by
+  simp only [callBuiltinCore, getArgB, List.getElem?_cons_zero, List.getElem?_cons_succ]
+  repeat np_step'
+
+theorem writeBits_np (sem : Sem) (x y z : Value) (hy : y.wt = true) :
+    NP (callBuiltinCore sem .writeBits [x, y, z]) := by
+  simp only [callBuiltinCore, getArgB, List.getElem?_cons_zero, List.getElem?_cons_succ]
+  repeat np_step'
+
+theorem mapData_np (sem : Sem) (x : Value) (hx : x.wt = true) :
+    NP (callBuiltinCore sem .mapData [x]) := by
+  simp only [callBuiltinCore, getArgB, List.getElem?_cons_zero, List.getElem?_cons_succ]
+  repeat np_step'
+
+end AikenVerif
+
+namespace AikenVerif
+open Gen
+
+theorem indexByteString_np (sem : Sem) (x y : Value) : NP (callBuiltinCore sem .indexByteString [x, y]) := by
+  simp only [callBuiltinCore, getArgB, List.getElem?_cons_zero, List.getElem?_cons_succ]
+  refine NP_bind (NP_ok _) ?_; intro a ha; cases ha
+  refine NP_bind (unwrapByteString_np _) ?_; intro bs _
+  refine NP_bind (NP_ok _) ?_; intro b hb; cases hb
+  refine NP_bind (unwrapInteger_np _) ?_; intro i _
+  split
+  · rename_i hc
+    simp only [Bool.and_eq_true, decide_eq_true_eq] at hc
+    have : i.toNat < bs.length := by omega
+    rw [List.getElem?_eq_getElem this]
+    exact NP_pure _
+  · exact NP_err
+
+theorem readBit_np (sem : Sem) (x y : Value) : NP (callBuiltinCore sem .readBit [x, y]) := by
+  simp only [callBuiltinCore, getArgB, List.getElem?_cons_zero, List.getElem?_cons_succ]
+  refine NP_bind (NP_ok _) ?_; intro a ha; cases ha
+  refine NP_bind (unwrapByteString_np _) ?_; intro bs _
+  refine NP_bind (NP_ok _) ?_; intro b hb; cases hb
+  refine NP_bind (unwrapInteger_np _) ?_; intro i _
+  split
+  · exact NP_err
+  · split
+    · exact NP_err
+    · rename_i hne hc
+      simp only [Bool.or_eq_true, decide_eq_true_eq, not_or, Int.not_lt] at hc
+      have hlen : 0 < bs.length := by
+        cases bs with
+        | nil => simp at hne
+        | cons _ _ => simp
+      have : bs.length - 1 - i.toNat / 8 < bs.length := by omega
+      rw [List.getElem?_eq_getElem this]
+      exact NP_pure _
+
+/-- the size guard evaluated while costing (`cost_as_size`) -/
+theorem costAsSize_ok_bounds {b : Builtin} {v : Value} {x : Int} (h : costAsSize b v = .ok x) :
+    ∃ size, v = .con (.integer size) ∧ 0 ≤ size ∧ size ≤ 8192 := by
+  unfold costAsSize at h
+  split at h
+  · rename_i size
+    split at h
+    · split at h <;> cases h
+    · rename_i hc
+      simp only [Bool.or_eq_true, decide_eq_true_eq, not_or, Int.not_lt] at hc
+      exact ⟨size, rfl, by omega, by omega⟩
+  · cases h
+
+theorem integerToByteString_np (sem : Sem) (x y z : Value)
+    (hpre : runPre .integerToByteString [x, y, z] (costSpec .integerToByteString).pre = .ok ()) :
+    NP (callBuiltinCore sem .integerToByteString [x, y, z]) := by
+  have hy : ∃ size, y = .con (.integer size) ∧ 0 ≤ size ∧ size ≤ 8192 := by
+    simp only [costSpec, runPre, getArg, List.getElem?_cons_zero, List.getElem?_cons_succ, bind, Res.bind] at hpre
+    cases hc : costAsSize .integerToByteString y with
+    | ok v => exact costAsSize_ok_bounds hc
+    | err => rw [hc] at hpre; cases hpre
+    | panic => rw [hc] at hpre; cases hpre
+    | unmodelled => rw [hc] at hpre; cases hpre
+  obtain ⟨size, rfl, h0, h1⟩ := hy
+  simp only [callBuiltinCore, getArgB, List.getElem?_cons_zero, List.getElem?_cons_succ]
+  refine NP_bind (NP_ok _) ?_; intro a ha; cases ha
+  refine NP_bind (unwrapBool_np _) ?_; intro be _
+  refine NP_bind (NP_ok _) ?_; intro b hb; cases hb
+  refine NP_bind (unwrapInteger_np _) ?_; intro s hs
+  simp only [Value.unwrapInteger] at hs
+  cases hs
+  refine NP_bind (NP_ok _) ?_; intro c hc; cases hc
+  refine NP_bind (unwrapInteger_np _) ?_; intro input _
+  have hfit : fitsU64 size = true := by simp [fitsU64]; omega
+  simp only [hfit, Bool.not_true, Bool.false_eq_true, if_false]
+  repeat (first | exact NP_err | exact NP_pure _ | split)
+
+theorem replicateByte_np (sem : Sem) (x y : Value)
+    (hpre : runPre .replicateByte [x, y] (costSpec .replicateByte).pre = .ok ()) :
+    NP (callBuiltinCore sem .replicateByte [x, y]) := by
+  have hx : ∃ size, x = .con (.integer size) ∧ 0 ≤ size ∧ size ≤ 8192 := by
+    simp only [costSpec, runPre, getArg, List.getElem?_cons_zero, bind, Res.bind] at hpre
+    cases hc : costAsSize .replicateByte x with
+    | ok v => exact costAsSize_ok_bounds hc
+    | err => rw [hc] at hpre; cases hpre
+    | panic => rw [hc] at hpre; cases hpre
+    | unmodelled => rw [hc] at hpre; cases hpre
+  obtain ⟨size, rfl, h0, h1⟩ := hx
+  simp only [callBuiltinCore, getArgB, List.getElem?_cons_zero, List.getElem?_cons_succ]
+  refine NP_bind (NP_ok _) ?_; intro a ha; cases ha
+  refine NP_bind (unwrapInteger_np _) ?_; intro s hs
+  simp only [Value.unwrapInteger] at hs
+  cases hs
+  refine NP_bind (NP_ok _) ?_; intro b hb; cases hb
+  refine NP_bind (unwrapInteger_np _) ?_; intro byte _
+  have hfit : fitsU64 size = true := by simp [fitsU64]; omega
+  simp only [hfit, Bool.not_true, Bool.false_eq_true, if_false]
+  repeat (first | exact NP_err | exact NP_pure _ | split)
+
+end AikenVerif
+
+namespace AikenVerif
+open Gen
+
+/-- **builtin layer never panics**: a saturated builtin applied to well-typed arguments, after the
+costing guards have passed, returns a value or an evaluation error -/
+theorem callBuiltinCore_np (sem : Sem) (b : Builtin) (args : List Value) (hl : args.length = b.arity)
+    (hw : Value.wtList args = true) (hpre : runPre b args (costSpec b).pre = .ok ()) :
+    NP (callBuiltinCore sem b args) := by
+  by_cases h1 : b = .constrData
+  · subst h1; obtain ⟨x, y, rfl⟩ := len_eq_two hl
+    simp only [Value.wtList, Bool.and_eq_true] at hw; exact constrData_np sem x y hw.2.1
+  by_cases h2 : b = .mapData
+  · subst h2; obtain ⟨x, rfl⟩ := len_eq_one hl
+    simp only [Value.wtList, Bool.and_eq_true] at hw; exact mapData_np sem x hw.1
+  by_cases h3 : b = .listData
+  · subst h3; obtain ⟨x, rfl⟩ := len_eq_one hl
+    simp only [Value.wtList, Bool.and_eq_true] at hw; exact listData_np sem x hw.1
+  by_cases h4 : b = .writeBits
+  · subst h4; obtain ⟨x, y, z, rfl⟩ := len_eq_three hl
+    simp only [Value.wtList, Bool.and_eq_true] at hw; exact writeBits_np sem x y z hw.2.1
+  by_cases h5 : b = .integerToByteString
+  · subst h5; obtain ⟨x, y, z, rfl⟩ := len_eq_three hl; exact integerToByteString_np sem x y z hpre
+  by_cases h6 : b = .replicateByte
+  · subst h6; obtain ⟨x, y, rfl⟩ := len_eq_two hl; exact replicateByte_np sem x y hpre
+  by_cases h7 : b = .indexByteString
+  · subst h7; obtain ⟨x, y, rfl⟩ := len_eq_two hl; exact indexByteString_np sem x y
+  by_cases h8 : b = .readBit
+  · subst h8; obtain ⟨x, y, rfl⟩ := len_eq_two hl; exact readBit_np sem x y
+  by_cases h9 : b = .chooseData
+  · subst h9; exact chooseData_np sem args hl
+  exact core_np_generic sem b args hl ⟨h1, h2, h3, h4, h5, h6, h7, h8, h9⟩
+
+/-- the core only passes through positions that exist -/
+def ArgOK (args : List Value) (r : Res BOut) : Prop := ∀ i, r = .ok (.arg i) → i < args.length
+
+theorem ArgOK_bind {α} {args : List Value} {x : Res α} {f : α → Res BOut}
+    (hf : ∀ a, x = .ok a → ArgOK args (f a)) : ArgOK args (x >>= f) := by
+  cases x with
+  | ok a => exact hf a rfl
+  | err => intro i h; cases h
+  | panic => intro i h; cases h
+  | unmodelled => intro i h; cases h
+
+theorem ArgOK_bind' {α} {args : List Value} {x : Res α} {f : α → Res BOut}
+    (hf : ∀ a, x = .ok a → ArgOK args (f a)) : ArgOK args (x.bind f) := ArgOK_bind hf
+
+theorem ArgOK_con {args : List Value} (c : Const) : ArgOK args (.ok (.con c)) := by intro i h; cases h
+theorem ArgOK_pure {args : List Value} (c : Const) : ArgOK args (pure (.con c)) := by intro i h; cases h
+theorem ArgOK_err {args : List Value} : ArgOK args .err := by intro i h; cases h
+theorem ArgOK_panic {args : List Value} : ArgOK args .panic := by intro i h; cases h
+theorem ArgOK_unm {args : List Value} : ArgOK args .unmodelled := by intro i h; cases h
+theorem ArgOK_arg {args : List Value} {i : Nat} (h : i < args.length) : ArgOK args (.ok (.arg i)) := by
+  intro j hj; cases hj; exact h
+
+macro "argok_step" : tactic => `(tactic| first
+  | exact ArgOK_con _ | exact ArgOK_pure _ | exact ArgOK_err | exact ArgOK_panic | exact ArgOK_unm
+  | exact ArgOK_arg (by simp)
+  | (refine ArgOK_bind ?_)
+  | (refine ArgOK_bind' ?_)
+  | split
+  | (intro _ h; first | cases h | skip))
+
+theorem core_argok (sem : Sem) (b : Builtin) (args : List Value) (hl : args.length = b.arity) :
+    ArgOK args (callBuiltinCore sem b args) := by
+  by_cases h9 : b = .chooseData
+  · subst h9
+    obtain ⟨a, b, c, d, e, f, rfl⟩ := len_eq_six hl
+    simp only [callBuiltinCore, getArgB, List.getElem?_cons_zero, List.getElem?_cons_succ]
+    repeat argok_step
+  · cases b <;> simp only [Builtin.arity] at hl <;> (try contradiction) <;> explode_args hl <;>
+      simp only [callBuiltinCore, getArgB, List.getElem?_cons_zero, List.getElem?_cons_succ] <;>
+      repeat argok_step
+
+theorem callBuiltin_np (sem : Sem) (b : Builtin) (args : List Value) (hl : args.length = b.arity)
+    (hw : Value.wtList args = true) (hpre : runPre b args (costSpec b).pre = .ok ()) :
+    NP (callBuiltin sem b args) := by
+  unfold callBuiltin
+  have hcore := callBuiltinCore_np sem b args hl hw hpre
+  have harg := core_argok sem b args hl
+  cases hc : callBuiltinCore sem b args with
+  | ok o =>
+    cases o with
+    | con c => exact NP_ok _
+    | arg i =>
+      have hi := harg i hc
+      simp only [Res.bind, getArgB, List.getElem?_eq_getElem hi]
+      exact NP_ok _
+  | err => intro h; cases h
+  | panic => exact absurd hc hcore
+  | unmodelled => intro h; cases h
+
+end AikenVerif
